@@ -49,11 +49,26 @@ AllocateSlow ==
   /\ last' = [a |-> "AllocateSlow"]
   /\ gen' = gen + 1 /\ live' = TRUE /\ rem' = Life /\ cb' = "parked" /\ UNCHANGED <<zombies, down>>
   /\ out' = {}
+\* an Allocate that is held in the operator's AUTH callback: nothing exists yet.  If the server is closed meanwhile, the
+\* handler still runs to its end when the callback returns -- whatever it creates then is gone again when its
+\* connection's goroutine winds up (a straggler at most), and nothing is left on the closed server.
+AllocateSlowAuth ==
+  /\ Idle /\ Stream /\ gen < MaxGen /\ ~live
+  /\ last' = [a |-> "AllocateSlowAuth"]
+  /\ cb' = "auth" /\ UNCHANGED <<gen, live, rem, zombies, down>>
+  /\ out' = {}
 CallbackDone ==
-  /\ cb = "parked"
+  /\ cb # "none"
   /\ last' = [a |-> "CallbackDone"]
-  /\ cb' = "none" /\ UNCHANGED <<gen, live, rem, zombies, down>>
-  /\ out' = {[k |-> "resp", m |-> "Allocate", cls |-> "ok", life |-> -1, opt |-> down]}   \* (nobody to answer once the server is closed)
+  /\ cb' = "none" /\ UNCHANGED down
+  /\ IF cb = "parked"
+       THEN /\ UNCHANGED <<gen, live, rem, zombies>>
+            /\ out' = {[k |-> "resp", m |-> "Allocate", cls |-> "ok", life |-> -1, opt |-> down]}   \* (nobody to answer once the server is closed)
+       ELSE IF down
+         THEN /\ gen' = gen + 1 /\ zombies' = zombies \cup {gen + 1} /\ UNCHANGED <<live, rem>>
+              /\ out' = {[k |-> "resp", m |-> "Allocate", cls |-> "ok", life |-> -1, opt |-> TRUE]}
+         ELSE /\ gen' = gen + 1 /\ live' = TRUE /\ rem' = Life /\ UNCHANGED zombies
+              /\ out' = {[k |-> "resp", m |-> "Allocate", cls |-> "ok", life |-> Life, opt |-> FALSE]}
 \* Server.Close: everything ends at once (on a stream listener the manager is closed as soon as the listener is,
 \* whatever the connection goroutines are doing)
 ServerClose ==
@@ -89,7 +104,7 @@ ReaderExit(g) ==
   /\ UNCHANGED <<gen, live, rem, cb, down>>
   /\ out' = {}
 
-Next == Allocate \/ AllocateSlow \/ CallbackDone \/ ServerClose \/ Refresh \/ RefreshZero \/ (\E d \in 1..Life : Advance(d)) \/ (\E g \in 1..MaxGen : ReaderExit(g))
+Next == Allocate \/ AllocateSlow \/ AllocateSlowAuth \/ CallbackDone \/ ServerClose \/ Refresh \/ RefreshZero \/ (\E d \in 1..Life : Advance(d)) \/ (\E g \in 1..MaxGen : ReaderExit(g))
 Spec == Init /\ [][Next]_vars
 View == state
 DepthBound == TLCGet("level") <= MaxDepth
